@@ -1,0 +1,19 @@
+//go:build verif
+
+package scheduler
+
+import "time"
+
+// Exported wrappers of existing unexported test seams, compiled only with -tags verif.
+
+// VerifSetFixedTime fixes the daemon's notion of "now" (zero time = wall clock).
+func VerifSetFixedTime(t time.Time) { setFixedTime(t) }
+
+// VerifRunTick runs exactly one scheduler tick for the logical minute t.
+func (s *Scheduler) VerifRunTick(t time.Time) { s.run(t) }
+
+// VerifStartWatcher initialises the entry reader (initial scan + directory watcher).
+func (s *Scheduler) VerifStartWatcher(done chan any) { s.entryReader.Start(done) }
+
+// VerifNextTick exposes the logical tick successor.
+func (s *Scheduler) VerifNextTick(t time.Time) time.Time { return s.nextTick(t) }
